@@ -127,6 +127,7 @@ MonUpdate ==
                ELSE "other"))
     /\ Check("C09", "FirstMatch", FirstMatchStep(stored, la))
     /\ Check("C12", "Isolation", IsolationStep(stored, stored', la))
+    /\ Check("C12", "OtherLogsCheckpointNeverFiledHere", la.req.auth \in {"peercp", "wrongorigin"} => la.v # "Accept" /\ stored' = stored)
     /\ Check("C16", "LogList", SeqToSet(Ev.loglist) = {m \in Logs : stored'[m] # None})
     /\ Check("C20", "Counters", CountersStep(ctr, ctr', la))
     /\ (Ev.frun => MonFault(la, st, known, honest))
